@@ -6,7 +6,7 @@
     process_pipeline / _PIPELINE_HANDLERS        aggregate.py:1609-1662
     _handle_match_stage                          1601-1606
     _handle_sort_stage                           1367-1376
-    $skip / $limit (lambdas)                     1621, 1635
+    _handle_skip_stage / _handle_limit_stage     (after _handle_match_stage)
     _handle_count_stage                          1583-1590
     _handle_project_stage (+ _combine_projection_spec, _project_by_spec)   1425-1538
     _handle_group_stage / _accumulate_group / _GROUPING_OPERATOR_MAP       175-219, 1073-1111, 1259-1286
@@ -116,26 +116,18 @@ def sortStage : Val → List Val → R (List Val)
   | .doc fs, docs => sortFields fs docs
   | _, _ => .error .attrErr                     -- `options.items()`
 
-/-! ### `$skip`, `$limit`: `c[o:]`, `c[:o]` -/
+/-! ### `$skip`, `$limit`: `_handle_skip_stage`, `_handle_limit_stage` -/
 
-/-- a slice bound: an int (or bool), `None`; anything else `TypeError: slice indices must be …` -/
-def sliceArg : Val → R (Option Int)
-  | .int i => .ok (some i)
-  | .bool b => .ok (some (if b then 1 else 0))
-  | .null => .ok none
-  | _ => .error .typeErr
+/-- `isinstance(options, bool) or not isinstance(options, int)` → OperationFailure; a negative
+    count → OperationFailure; else `in_collection[options:]` -/
+def skipStage : Val → List Val → R (List Val)
+  | .int n, docs => if n < 0 then .error .opFail else .ok (docs.drop n.toNat)
+  | _, _ => .error .opFail
 
-def skipStage (o : Val) (docs : List Val) : R (List Val) :=
-  match sliceArg o with
-  | .error e => .error e
-  | .ok none => .ok docs
-  | .ok (some n) => .ok (pyDropFrom n docs)
-
-def limitStage (o : Val) (docs : List Val) : R (List Val) :=
-  match sliceArg o with
-  | .error e => .error e
-  | .ok none => .ok docs
-  | .ok (some n) => .ok (pyTakeTo n docs)
+/-- … `options <= 0` → OperationFailure ('the limit must be positive'); else `in_collection[:options]` -/
+def limitStage : Val → List Val → R (List Val)
+  | .int n, docs => if n ≤ 0 then .error .opFail else .ok (docs.take n.toNat)
+  | _, _ => .error .opFail
 
 /-! ### `$count` (aggregate.py:1583-1590) -/
 
@@ -826,18 +818,24 @@ mutual
       | .ok docs' => runPipeline db rest docs'
   termination_by structural x _ => x
 
-  /-- one element of the pipeline: `for operator, options in stage.items()` -/
+  /-- one element of the pipeline: `if len(stage) != 1: raise OperationFailure`, then
+      `for operator, options in stage.items()`.  `len` of a value without a length is a TypeError;
+      a string or list of length one has no `.items()` -/
   def runStage (db : Db) : Val → List Val → R (List Val)
     | .doc fs, docs => runOps db fs docs
-    | _, _ => .error .attrErr
+    | .str s, _ => if s.length = 1 then .error .attrErr else .error .opFail
+    | .arr xs, _ => if xs.length = 1 then .error .attrErr else .error .opFail
+    | _, _ => .error .typeErr
   termination_by structural x _ => x
 
+  /-- the fields of a stage document: exactly one operator, or OperationFailure ('A pipeline
+      stage specification object must contain exactly one field.') -/
   def runOps (db : Db) : Fields → List Val → R (List Val)
-    | [], docs => .ok docs
+    | [], _ => .error .opFail
     | (op, opts) :: rest, docs =>
-      match runOp db op opts docs with
-      | .error e => .error e
-      | .ok docs' => runOps db rest docs'
+      match rest with
+      | [] => runOp db op opts docs
+      | _ :: _ => .error .opFail
   termination_by structural x _ => x
 
   /-- `handler(collection, database, options)` -/
